@@ -6,6 +6,11 @@ ALL = ["C%02d" % i for i in range(1, 21)]
 
 # property -> dict(level, text, note, technique, engine, design_ref)
 CLAIMED = {
+  "C02": dict(level="exploration", engine="E1",
+    text="Bounded-exhaustive exploration in all 23 grammars: for every error-free node of every tree of token strings <= L (+ corpus), every way of replacing <= 2 (thorough 3) non-overlapping named descendants by distinct $V holes and every trailing run of named siblings by $$$V; whenever the cut pattern parses to the node's shape (checked on the public PatternNode tree) it must match the node at all five strictness levels and bind each hole to exactly the replaced extent. ~1.3e7 (cut, strictness) evaluations in the quick tier.",
+    note="Cuts whose pattern text does not re-parse to the same shape are counted, not judged (the property's precondition); bindings are compared by byte extent.",
+    technique="bounded-exhaustive enumeration of (source, node, hole set) cuts with a round-trip oracle",
+    design_ref="DESIGN.md §3 C02"),
   "C03": dict(level="exploration", engine="E1",
     text="Bounded-exhaustive exploration: every (pattern, strictness, node) triple for all accepted patterns <= P tokens over source tokens + the six hole spellings, plus every pattern cut (0/1 hole or a trailing $$$ run) from another source, against every node of every tree of token strings <= L; each reported match must be justified by an independent backtracking alignment relation written from the strictness table (DESIGN A.1), and get_match_len must not panic, exceed the node or split a child. ~2.7e9 triples, ~6e7 reported matches in the quick tier.",
     note="ref_align is deliberately the most permissive legal alignment, so only the direction impl-match => legal is asserted; unnamed pattern tokens may stay unmatched at every strictness.",
